@@ -14,12 +14,15 @@
        recorded finding F18 — the hypothesis of the theorem is exactly its complement).
      - header (repaired code): unique modules and bound names, the reserved symbol gin never bound under
        dynamic registration, __gin__ feature statements first (C06_feature_statement_first; the original
-       order is refuted by C06_orig_header_order_refuted), idempotent on its own output.
+       order is refuted by C06_orig_header_order_refuted), idempotent on its own output;
+       independent of the order in which the recorded statements are presented -- _IMPORTS is a set --
+       (C06_import_header_order_independent; the code before the F37 repair is refuted by
+       C06_orig_import_header_order_dependent).
    NOT proved in Coq (validated on the real parser and the real pprint/repr by the independent predicates
    of harness/props/c06.py): that parsing the emitted text does yield that store, i.e. that each emitted
    value text evaluates back to an equal value of the same type. *)
 From Coq Require Import List String ZArith Bool Arith Ascii Sorting.Permutation Sorting.Sorted.
-From GinV Require Import Lib.Out Lib.PyStr Model.SelectorMap Model.Serial Proofs.SerialProofs Proofs.SerialProofs2.
+From GinV Require Import Lib.Out Lib.PyStr Model.SelectorMap Model.Serial Proofs.SerialProofs Proofs.SerialProofs2 Proofs.SerialProofs3.
 Import ListNotations.
 Open Scope string_scope.
 Open Scope list_scope.
@@ -204,7 +207,7 @@ Theorem C06_orig_enabling_statement_realiased :
   map import_format (import_manager [enabling_stmt; pkg]) =
     ["from __gin__ import dynamic_registration"; "from Pkg import dynamic_registration as dynamic_registration2"].
 Proof. exact SerialProofs2.C06_orig_enabling_statement_realiased. Qed.
-(* the order of addition is the pull-back of a strict total order on (not feature, (module, not from)) *)
+(* the order of addition is the pull-back of a strict total order on (not feature, (module, (not from, alias or ''))) *)
 Theorem C06_import_add_order : strict_total import_sort_key_ltb /\
   (forall a b, import_key_ltb a b = import_sort_key_ltb (import_sort_key a) (import_sort_key b)).
 Proof. split; [exact import_sort_key_ltb_strict_total | exact import_key_ltb_as_key]. Qed.
@@ -214,6 +217,46 @@ Theorem C06_import_manager_idempotent : forall imports, List.length imports + 3 
   import_manager imps' = imps' /\ sorted_imports (import_manager imps') = imps'.
 Proof. exact import_manager_idempotent. Qed.
 
+(* F37 (repaired code): the statements kept by the manager -- hence the header and the whole text -- do not
+   depend on the order in which the recorded statements are presented (the real _IMPORTS is a set).  The empty
+   alias, which the parser cannot produce and which `alias or ''` identifies with no alias, is excluded. *)
+Theorem C06_import_header_order_independent : forall l1 l2,
+  Permutation l1 l2 -> Forall (fun i => i_alias i <> Some "") l1 ->
+  import_manager l1 = import_manager l2.
+Proof. exact import_manager_order_independent. Qed.
+Theorem C06_import_lines_order_independent : forall l1 l2,
+  Permutation l1 l2 -> Forall (fun i => i_alias i <> Some "") l1 ->
+  map import_format (sorted_imports (import_manager l1)) = map import_format (sorted_imports (import_manager l2)).
+Proof. exact import_header_order_independent. Qed.
+Theorem C06_text_import_order_independent : forall registry l1 l2 entries maxlen indent,
+  Permutation l1 l2 -> Forall (fun i => i_alias i <> Some "") l1 ->
+  config_lines registry l1 entries maxlen indent = config_lines registry l2 entries maxlen indent.
+Proof. exact config_lines_import_order_independent. Qed.
+(* the repaired sort key determines the statement *)
+Theorem C06_import_sort_key_injective : forall a b, i_alias a <> Some "" -> i_alias b <> Some "" ->
+  import_sort_key a = import_sort_key b -> a = b.
+Proof. exact import_sort_key_injective. Qed.
+(* the code before the F37 repair (no tie-break on the alias): the header names whichever statement came first *)
+Theorem C06_orig_import_header_order_dependent :
+  let a := {| i_module := "_under"; i_from := false; i_alias := Some "al" |} in
+  let b := {| i_module := "_under"; i_from := false; i_alias := Some "alpha" |} in
+  map import_format (import_manager_noalias [a; b]) = ["import _under as al"] /\
+  map import_format (import_manager_noalias [b; a]) = ["import _under as alpha"] /\
+  import_manager [a; b] = import_manager [b; a].
+Proof. exact orig_import_header_order_dependent. Qed.
+(* the hypothesis on the empty alias is needed in the model *)
+Theorem C06_import_header_empty_alias_order_dependent :
+  let a := {| i_module := "m"; i_from := false; i_alias := Some "" |} in
+  let b := {| i_module := "m"; i_from := false; i_alias := None |} in
+  import_manager [a; b] = [a] /\ import_manager [b; a] = [b].
+Proof. exact import_manager_order_dependent_on_empty_alias. Qed.
+
+Print Assumptions C06_import_header_order_independent.
+Print Assumptions C06_import_lines_order_independent.
+Print Assumptions C06_text_import_order_independent.
+Print Assumptions C06_import_sort_key_injective.
+Print Assumptions C06_orig_import_header_order_dependent.
+Print Assumptions C06_import_header_empty_alias_order_dependent.
 Print Assumptions C06_feature_statement_never_realiased.
 Print Assumptions C06_enabling_statement_unchanged.
 Print Assumptions C06_enabling_statement_unchanged_single.
